@@ -36,6 +36,7 @@ type Op struct {
 	Skip    int    `json:"skip,omitempty"` // new stream: skip this many odd ids
 	Cont    int    `json:"cont,omitempty"` // header block split into this many CONTINUATION frames
 	N       int    `json:"n,omitempty"`
+	CL      int    `json:"cl,omitempty"` // new stream without END_STREAM: declared content-length (0 = none)
 }
 
 type Script struct {
@@ -52,7 +53,7 @@ func gen(t *rapid.T) Script {
 	nStreams := 0
 	n := rapid.IntRange(1, 28).Draw(t, "nops")
 	for i := 0; i < n; i++ {
-		kinds := []string{"new", "new", "new", "new", "headers_malformed", "settings", "ping", "window_update_conn", "priority_idle", "priority_self", "unknown", "release"}
+		kinds := []string{"new", "new", "new", "new", "upload", "headers_malformed", "settings", "ping", "window_update_conn", "priority_idle", "priority_self", "unknown", "release"}
 		if nStreams > 0 {
 			kinds = append(kinds, "data", "data", "data", "trailers", "trailers", "rst", "rst", "window_update", "priority", "headers_again", "release", "release")
 		}
@@ -67,6 +68,25 @@ func gen(t *rapid.T) Script {
 		}
 		op := Op{Kind: k}
 		switch k {
+		case "upload":
+			// a request with a declared content-length followed by its body in 2-3 DATA frames (drawn padding),
+			// exact or one octet too long
+			var pieces []int
+			total := 0
+			for j := 0; j < rapid.IntRange(2, 3).Draw(t, "pieces"); j++ {
+				p := rapid.SampledFrom([]int{1, 50, 100, 1000}).Draw(t, "piece")
+				pieces = append(pieces, p)
+				total += p
+			}
+			if rapid.IntRange(0, 3).Draw(t, "beyond") == 0 {
+				total--
+			}
+			s.Ops = append(s.Ops, Op{Kind: "new", Mode: rapid.SampledFrom([]string{"hang", "read-body"}).Draw(t, "mode"), CL: total})
+			nStreams++
+			for j, p := range pieces {
+				s.Ops = append(s.Ops, Op{Kind: "data", Ref: nStreams - 1, N: p, End: j == len(pieces)-1, Variant: rapid.SampledFrom([]string{"", "padded", "padded", "padding-only"}).Draw(t, "dv")})
+			}
+			continue
 		case "new":
 			op.Mode = rapid.SampledFrom([]string{"finish", "finish", "hang", "hang", "read-body"}).Draw(t, "mode")
 			op.End = rapid.Bool().Draw(t, "end")
@@ -76,6 +96,9 @@ func gen(t *rapid.T) Script {
 			op.Variant = rapid.SampledFrom([]string{"", "", "", "", "", "", "", "", "", "interrupted"}).Draw(t, "cv")
 			if op.Cont == 0 {
 				op.Variant = ""
+			}
+			if !op.End {
+				op.CL = rapid.SampledFrom([]int{0, 0, 0, 1, 100, 200, 1100, 2000}).Draw(t, "cl")
 			}
 			nStreams++
 		case "headers_malformed":
@@ -127,6 +150,9 @@ type mstream struct {
 	released     bool
 	release      chan struct{}
 	noHandler    bool // model: a handler must never run for this stream
+	decl         int64 // declared content-length, -1 if none
+	body         int64 // DATA payload octets (padding excluded) sent on the open stream so far
+	sawPadded    bool
 }
 
 type expect struct {
@@ -421,7 +447,10 @@ func exec(t *testing.T, s Script) (viol *vstat.Violation, classes map[string]boo
 				if maxID == 0 {
 					id = 1 + uint32(2*op.Skip)
 				}
-				st := &mstream{id: id, mode: op.Mode, path: fmt.Sprintf("/s/%d/%s", id, op.Mode), wellFormed: true, release: make(chan struct{}), clientEnded: op.End}
+				st := &mstream{id: id, mode: op.Mode, path: fmt.Sprintf("/s/%d/%s", id, op.Mode), wellFormed: true, release: make(chan struct{}), clientEnded: op.End, decl: -1}
+				if op.CL > 0 && !op.End {
+					st.decl = int64(op.CL)
+				}
 				smu.Lock()
 				byPath[st.path] = st
 				smu.Unlock()
@@ -446,13 +475,17 @@ func exec(t *testing.T, s Script) (viol *vstat.Violation, classes map[string]boo
 				if op.Prio {
 					pr = &rig.Prio{Dep: 0, Weight: 33}
 				}
-				writeBlock(id, peer.Encode(fields(st.path)), op.End, pr, op.Cont, interrupted)
+				hf := fields(st.path)
+				if st.decl >= 0 {
+					hf = append(hf, [2]string{"content-length", fmt.Sprint(st.decl)})
+				}
+				writeBlock(id, peer.Encode(hf), op.End, pr, op.Cont, interrupted)
 			case "headers_malformed":
 				id := maxID + 2
 				if maxID == 0 {
 					id = 1
 				}
-				st := &mstream{id: id, mode: "finish", path: fmt.Sprintf("/bad/%d/%s", id, op.Variant), release: make(chan struct{}), clientEnded: op.End, noHandler: true}
+				st := &mstream{id: id, mode: "finish", path: fmt.Sprintf("/bad/%d/%s", id, op.Variant), release: make(chan struct{}), clientEnded: op.End, noHandler: true, decl: -1}
 				smu.Lock()
 				byPath[st.path] = st
 				smu.Unlock()
@@ -525,6 +558,25 @@ func exec(t *testing.T, s Script) (viol *vstat.Violation, classes map[string]boo
 					if connWindowSent+total > 60000 {
 						continue // stay inside the connection window: flow control is C12's subject
 					}
+					if st.decl >= 0 && op.Variant != "bad-padding" {
+						// RFC 7540 8.1.2.6: the content-length must equal the sum of the DATA payload lengths
+						// (payload: padding does not count)
+						switch {
+						case st.body+int64(len(payload)) > st.decl:
+							ex = streamErr("data-beyond-content-length", st.id, cProtocol)
+							classes["data-beyond-content-length"] = true
+						case op.End && st.body+int64(len(payload)) != st.decl:
+							ex = streamErr("body-shorter-than-content-length", st.id, cProtocol)
+							ex.optional = true // (x/net reports it to the handler through the body reader instead)
+						default:
+							if st.sawPadded && len(payload) > 0 {
+								classes["data-after-padded-data-within-content-length"] = true
+							}
+							classes["data-within-content-length"] = true
+						}
+						st.body += int64(len(payload))
+						st.sawPadded = st.sawPadded || padded
+					}
 				case "half-closed-remote":
 					ex = streamErr("data-on-half-closed-remote", st.id, cClosed)
 				case "reset-by-client":
@@ -570,6 +622,10 @@ func exec(t *testing.T, s Script) (viol *vstat.Violation, classes map[string]boo
 				case "open":
 					if op.Variant == "" {
 						ex = legal("trailers")
+						if st.decl >= 0 && st.body != st.decl {
+							ex = streamErr("body-shorter-than-content-length", st.id, cProtocol)
+							ex.optional = true
+						}
 						st.clientEnded = true
 						classes["trailers"] = true
 					} else {
@@ -845,7 +901,8 @@ func names(m map[uint32]bool) []string {
 }
 
 func TestModel(t *testing.T) {
-	col.Mandatory("concurrency-limit-reached", "continuation", "continuation-interrupted", "illegal-frame", "request-handled", "connection-error", "client-reset", "trailers", "padding-only-data", "malformed:uppercase", "malformed:missing-path")
+	col.Mandatory("concurrency-limit-reached", "continuation", "continuation-interrupted", "illegal-frame", "request-handled", "connection-error", "client-reset", "trailers", "padding-only-data", "malformed:uppercase", "malformed:missing-path",
+		"data-within-content-length", "data-after-padded-data-within-content-length", "data-beyond-content-length")
 	vstat.Run(t, vstat.Spec[Script]{Col: col, Quick: 3000, Thorough: 100000, Gen: gen,
 		Exec: func(s Script) *vstat.Violation {
 			v, cl := exec(t, s)
